@@ -11,12 +11,16 @@ for d in sorted(glob.glob('/verif/seeded/*/')):
     det = bool(m.get('detected')); nd += det
     by = m.get('detected_by') or ('./check %s' % m.get('breaks_property', name[:3]))
     rows.append('| %s | %s | %s | %s | %s |' % (name, clean(m.get('summary', ''), 220), clean(m.get('needs_to_manifest', ''), 160),
-                by if det else '**missed**', (sig + ' ' + clean(m.get('integrator_note', ''), 200)).strip()))
+                by if det else '**missed**', (sig + ' ' + clean(m.get('integrator_note', ''), 200) + (' [' + clean(m.get('reverified', {}).get('note', ''), 260) + ']' if m.get('reverified', {}).get('note') else '')).strip()))
 hdr = ("### 8.5 Which checks catch which seeded changes\n\n"
        "Each change below was written by a sub-agent that saw only the property text and a scratch worktree, and was kept only after\n"
        "`lib/confirm_mutant.sh` confirmed it (compiles, the 19 tests pass, its demonstration fails with and passes without the change).\n"
        "The verdict column is the result of `VERIF_REPO=<worktree with the change> ./check <ID> --tier quick` (`lib/try_mutant.sh`); the last\n"
-       "column names the replay file of the first VIOLATION line.  %d changes, %d detected.  Full records: `seeded/<ID>_<k>/meta.json`.\n\n"
+       "column names the replay file of the first VIOLATION line.  %d changes, %d detected.  Full records: `seeded/<ID>_<k>/meta.json`.\n"
+       "After the round-6 fix: commits every stored change was run again against the current checks and /repo HEAD (`lib/reverify_seeded.sh`; field\n"
+       "`reverified` of each meta.json): a change whose own demonstration now PASSES with the patch applied (the fixes made the code robust against it) is\n"
+       "marked so and keeps the verdict obtained at the HEAD it was written for.  Candidates that did not survive confirmation were dropped: a reordered unlock\n"
+       "in `mps_thread_mainloop` (C05; `check_secsolve` failed with it under load) and a second C01 candidate identical to seeded/C16_1.\n\n"
        "| change | what was changed | what it needs to manifest | caught by | first violation / note |\n|---|---|---|---|---|\n" % (len(rows), nd))
 body = "<!-- SEEDED-TABLE-BEGIN -->\n" + hdr + "\n".join(rows) + "\n<!-- SEEDED-TABLE-END -->\n"
 s = open('/verif/DESIGN.md').read()
